@@ -2,27 +2,25 @@
 
 package fox
 
-import (
-	"sync"
-
-	"github.com/tigerwill90/fox/internal/simplelru"
-)
+import "github.com/tigerwill90/fox/internal/simplelru"
 
 // Exported view of the yield points for the simulator.
 const (
-	SimPtLocked     = ptLocked
-	SimPtBeforeLoad = ptBeforeLoad
-	SimPtAfterLoad  = ptAfterLoad
-	SimPtCommit     = ptCommit
-	SimPtStored     = ptStored
-	SimPtUnlocked   = ptUnlocked
-	SimPtAbort      = ptAbort
-	SimPtRouteOpts  = ptRouteOpts
+	SimPtLocked       = ptLocked
+	SimPtBeforeLoad   = ptBeforeLoad
+	SimPtAfterLoad    = ptAfterLoad
+	SimPtCommit       = ptCommit
+	SimPtStored       = ptStored
+	SimPtUnlocked     = ptUnlocked
+	SimPtAbort        = ptAbort
+	SimPtRouteOpts    = ptRouteOpts
+	SimPtBeforeUnlock = ptBeforeUnlock
+	SimPtBeforeStore  = ptBeforeStore
 )
 
 // SimHooks are assigned by a deterministic simulator (build tag verif only). All of them may be nil.
 var SimHooks struct {
-	// Acquire is called just before the writer lock is taken. probe reports whether the lock is currently free
+	// Acquire is called just before a lock is taken. probe reports whether the lock is currently free
 	// (it never keeps it). The simulator yields until probe returns true, so that the real Lock that follows
 	// never blocks a goroutine.
 	Acquire func(probe func() bool)
@@ -32,11 +30,12 @@ var SimHooks struct {
 	CacheSize func() int
 }
 
-func simAcquire(mu *sync.Mutex) {
+// simAcquire is called (by mechanically inserted code) before a Lock/RLock with the matching TryLock and Unlock methods.
+func simAcquire(try func() bool, unlock func()) {
 	if h := SimHooks.Acquire; h != nil {
 		h(func() bool {
-			if mu.TryLock() {
-				mu.Unlock()
+			if try() {
+				unlock()
 				return true
 			}
 			return false
